@@ -112,17 +112,32 @@ thread_local! {
     pub static PROBE: RefCell<Option<Box<dyn Fn() -> Vec<u64>>>> = RefCell::new(None);
 }
 
+/// a single operation that performs this many atomic accesses is busy-waiting (no operation of the crate but `wait_for` loops): stop the
+/// process instead of logging without bound (the runner resumes with the next history and reports the missing lines)
+const FLOOD: usize = 200_000;
+fn flood_guard(n: usize) {
+    if n > FLOOD {
+        println!("FLOOD: one operation performed more than {} atomic accesses (busy waiting inside an operation?)", FLOOD);
+        use std::io::Write; let _ = std::io::stdout().flush();
+        std::process::exit(3);
+    }
+}
+
 impl Listener for Logger {
     fn before(&self, e: &Event) -> Option<usize> {
         if self.enabled.load(AO::Relaxed) && e.kind != Kind::Load {
             let probe = if e.kind == Kind::Store { PROBE.with(|p| p.borrow().as_ref().map(|f| f())) } else { None };
-            self.log.lock().unwrap().push(Logged { kind: e.kind, addr: e.addr, order: e.order, value: e.value, probe });
+            let mut l = self.log.lock().unwrap();
+            l.push(Logged { kind: e.kind, addr: e.addr, order: e.order, value: e.value, probe });
+            let n = l.len(); drop(l); flood_guard(n);
         }
         None
     }
     fn after(&self, e: &Event, read: usize) {
         if self.enabled.load(AO::Relaxed) && e.kind == Kind::Load {
-            self.log.lock().unwrap().push(Logged { kind: e.kind, addr: e.addr, order: e.order, value: read, probe: None });
+            let mut l = self.log.lock().unwrap();
+            l.push(Logged { kind: e.kind, addr: e.addr, order: e.order, value: read, probe: None });
+            let n = l.len(); drop(l); flood_guard(n);
         }
     }
 }
